@@ -109,7 +109,9 @@ RPre == FromLog(Ev.pre, Ev.ext, "")
 RPost == FromLog(Ev.post, <<>>, "")
 RPost2 == FromLog(Ev.post2, <<>>, "")
 RSaved == FromLog(Ev.saved, <<>>, "")
-REng == [NewEngine(IF Ev.mode = "P" THEN Volatile(RPre) ELSE RPre) EXCEPT !.initd = ~Ev.fresh]
+REng == WithCfg([NewEngine(IF Ev.mode = "P" THEN Volatile(RPre) ELSE RPre) EXCEPT !.initd = ~Ev.fresh], Ev.cfg)
+\* "until the flag is cleared": with ResetOnEmptyInput the empty input clears TERMINATE and restarts the session
+Restarts == Ev.cfg.rempty /\ Ev.input = ""
 RQ == ExecReq(REng, Ev.input, Ev.incls)
 RJudged == IsReq /\ ~RQ.panic /\ Ev.panic = ""
 Refused == Ev.incls # "ok"
@@ -120,14 +122,20 @@ ClientFlags(s) == {f \in s.flags : f >= 8}
 C03_MessageShown == IsReq /\ Ev.panic = "" /\ Ev.post.havevm /\ RPost.errp.cls = "invalid" /\ Ev.flushed /\ ~Ev.ferr /\ Ev.outlen > 0 =>
                        Ev.outerr = RPost.errp
 
+\* ---- C03 / C04 at request level: the VM routes THIS request's input, and the position after the request is the one the
+\*      specification gives for it (whatever the engine did around the run)
+C03_RoutedInput == RJudged /\ ~Refused /\ RQ.ran /\ Ev.niter > 0 => RPost.input = In(Ev.input)
+C04_ReqNav == RJudged /\ ~Refused => NavProj(RQ.e.s) = NavProj(RPost)
+
 \* ---- C17: refused input has no effect
-C17_Refused == IsReq /\ Refused =>
+\* (not judged for applications with a pre-VM check: by design it runs, in its scratch scope, before the input is validated)
+C17_Refused == IsReq /\ Refused /\ ~Ev.cfg.first =>
                  /\ Ev.err /\ Ev.niter = 0 /\ Ev.ext = <<>> /\ Ev.panic = ""
                  /\ PersProj(RPost) = PersProj(RPre)
                  /\ (RPost.code = RPre.code \/ (RPre.code = <<>> /\ RPost.code = RootCode))
                  /\ (Ev.mode = "P" /\ Ev.havesave => /\ PersProj(RSaved) = PersProj(RPre)
                                                       /\ (RSaved.code = RPre.code \/ (RPre.code = <<>> /\ RSaved.code = RootCode)))
-C17_RefusedOutput == IsReq /\ Refused /\ Ev.flushed => Ev.outlen = 0 /\ Ev.fext = <<>>
+C17_RefusedOutput == IsReq /\ Refused /\ Ev.flushed /\ ~Ev.cfg.first => Ev.outlen = 0 /\ Ev.fext = <<>>
 
 \* ---- C20 / C06: end of session
 C20_Outcome == RJudged /\ ~Refused => /\ RQ.cont = Ev.cont /\ RQ.err = Ev.err
@@ -139,10 +147,10 @@ C20_GracefulEnd == RJudged /\ ~Refused /\ RQ.e.exiting /\ Ev.flushed /\ ~Ev.ferr
                      /\ RPost2.path = <<>> /\ RPost2.c.frames = <<EmptyF>> /\ RPost2.c.used = 0
                      /\ TERMINATE \notin RPost2.flags /\ ClientFlags(RPost2) = ClientFlags(RPost)
                      /\ Ev.outlen > 0
-C20_Blocked == IsReq /\ ~Refused /\ TERMINATE \in RPre.flags =>
+C20_Blocked == IsReq /\ ~Refused /\ TERMINATE \in RPre.flags /\ ~Restarts =>
                      /\ ~Ev.cont /\ Ev.ext = <<>> /\ Ev.outlen = 0 /\ Ev.fext = <<>> /\ Ev.panic = ""
                      /\ PersProj(RPost2) = PersProj(RPre)
-C20_Restart == RJudged /\ ~Refused /\ Ev.fresh /\ RPre.code = <<>> /\ RPre.path = <<>> /\ TERMINATE \notin RPre.flags /\ ~Ev.err =>
+C20_Restart == RJudged /\ ~Refused /\ Ev.fresh /\ RPre.code = <<>> /\ RPre.path = <<>> /\ TERMINATE \notin RPre.flags /\ ~Ev.err /\ Ev.niter > 0 =>
                      Len(RPost.path) >= 1 /\ RPost.path[1] = Root
 
 \* ---- C08: no panic, consistent session after every request, session can be saved and loaded
@@ -153,7 +161,8 @@ C08_Resumable  == IsReq /\ Ev.mode = "P" /\ Ev.panic = "" /\ Ev.fpanic = "" /\ ~
                      ~Ev.finerr /\ Ev.havesave
 
 \* ---- C07: saving and loading changes nothing a later request can observe
-C07_Snapshot == IsReq /\ Ev.mode = "P" /\ Ev.havesave /\ Ev.panic = "" /\ Ev.fpanic = "" =>
+\* (Finish writes the session only if the engine object got through init: not after a refused first input, or a pre-VM check that stopped the request)
+C07_Snapshot == IsReq /\ Ev.mode = "P" /\ Ev.havesave /\ Ev.initd /\ Ev.panic = "" /\ Ev.fpanic = "" =>
                      /\ PersProj(RSaved) = PersProj(RPost2) /\ RSaved.code = RPost2.code
                      /\ RSaved.c.sizes = RPost2.c.sizes /\ RSaved.c.last = RPost2.c.last
 
@@ -179,6 +188,11 @@ Drift_Req == RJudged /\ ~Refused => /\ PersProj(RQ.e.s) = PersProj(RPost)
 IsPair(k) == Have /\ Ev.ev = "pair" /\ Ev.kind = k
 C07_Equiv == IsPair("mode") => Ev.a = Ev.b
 C17_AsIfNeverSent == IsPair("insert") => Ev.a = Ev.b
+\* an application may keep ONE Persister object for all its requests (that is what WithFlush is for): loading a session
+\* through it gives exactly what was saved, whatever the object held before
+C07_Reuse == IsPair("reuse") => Ev.a = Ev.b
+\* ... and a request served through such a persister (mode "R") leaves the cache as consistent as the stored session was
+C07_ReuseConsistent == IsReq /\ Ev.mode = "R" /\ Ev.panic = "" /\ Consistent(RPre.c) => Consistent(RPost2.c)
 
 (***************************************************************************)
 (* "langout" lines: requests served from the real resource.DbResource over *)
